@@ -65,6 +65,11 @@ func relevantV1Txn(txn types.Transaction, addr types.Address) bool {
 			return true
 		}
 	}
+	for _, si := range txn.SiafundInputs {
+		if si.ClaimAddress == addr {
+			return true // the siafund claim is paid to the wallet
+		}
+	}
 	return false
 }
 
@@ -77,6 +82,11 @@ func relevantV2Txn(txn types.V2Transaction, addr types.Address) bool {
 	for _, si := range txn.SiacoinInputs {
 		if si.Parent.SiacoinOutput.Address == addr {
 			return true
+		}
+	}
+	for _, si := range txn.SiafundInputs {
+		if si.ClaimAddress == addr {
+			return true // the siafund claim is paid to the wallet
 		}
 	}
 	return false
@@ -131,6 +141,20 @@ func appliedEvents(cau chain.ApplyUpdate, walletAddress types.Address) (events [
 				}, sce.MaturityHeight)
 			}
 		}
+		for _, si := range txn.SiafundInputs {
+			// claims paid to the wallet by siafunds it does not own
+			if si.ClaimAddress == walletAddress && si.UnlockConditions.UnlockHash() != walletAddress {
+				outputID := si.ParentID.ClaimOutputID()
+				sce, ok := siacoinElements[outputID]
+				if !ok {
+					panic("missing claim siacoin element")
+				}
+
+				addEvent(types.Hash256(outputID), EventTypeSiafundClaim, EventPayout{
+					SiacoinElement: sce.Copy(),
+				}, sce.MaturityHeight)
+			}
+		}
 
 		event := EventV1Transaction{
 			Transaction: txn,
@@ -154,6 +178,20 @@ func appliedEvents(cau chain.ApplyUpdate, walletAddress types.Address) (events [
 		}
 		for _, si := range txn.SiafundInputs {
 			if si.Parent.SiafundOutput.Address == walletAddress {
+				outputID := types.SiafundOutputID(si.Parent.ID).V2ClaimOutputID()
+				sce, ok := siacoinElements[outputID]
+				if !ok {
+					panic("missing claim siacoin element")
+				}
+
+				addEvent(types.Hash256(outputID), EventTypeSiafundClaim, EventPayout{
+					SiacoinElement: sce.Copy(),
+				}, sce.MaturityHeight)
+			}
+		}
+		for _, si := range txn.SiafundInputs {
+			// claims paid to the wallet by siafunds it does not own
+			if si.ClaimAddress == walletAddress && si.Parent.SiafundOutput.Address != walletAddress {
 				outputID := types.SiafundOutputID(si.Parent.ID).V2ClaimOutputID()
 				sce, ok := siacoinElements[outputID]
 				if !ok {
